@@ -58,6 +58,15 @@ func (g *Gen) calleeInfo(fr *Frame, c *ssa.CallCommon) (key string, fn *ssa.Func
 			key = k
 		}
 	}
+	// a captured function variable (e.g. the yield function of an iterator body): contract keyed on the capturing function
+	if u, ok := c.Value.(*ssa.UnOp); ok {
+		if fv, ok := u.X.(*ssa.FreeVar); ok {
+			k := keyOfSSAFunc(fr.fn) + "#free." + fv.Name()
+			if g.lookupContract(k) != nil {
+				key = k
+			}
+		}
+	}
 	// a package-level function variable (e.g. var timeNow = func() ...): contract keyed on the variable
 	if u, ok := c.Value.(*ssa.UnOp); ok {
 		if gl, ok := u.X.(*ssa.Global); ok {
